@@ -18,6 +18,46 @@ def alphabet(m):
     return evs
 
 
+# ------------------------------------------------------------------------------------------
+# part 2: the exchange-hours guard through real fills, on every day of a year (both daylight-saving
+# regimes of any wall-clock zone, leap day, weekends) x boundary times: depth-2 histories
+# (two pending orders; one clock update) on fresh real brokers
+# ------------------------------------------------------------------------------------------
+HOUR_TIMES = [(0, 0, 0), (13, 29, 59), (13, 30, 0), (14, 29, 59), (14, 30, 0), (14, 30, 1), (17, 45, 0),
+              (19, 59, 59), (20, 0, 0), (20, 59, 59), (21, 0, 0), (21, 0, 1), (23, 59, 59)]
+
+
+def hours_day(ordinal):
+    import datetime
+    import pandas as pd
+    from qstrader.broker.simulated_broker import SimulatedBroker
+    from qstrader.exchange.simulated_exchange import SimulatedExchange
+    from qstrader.execution.order import Order
+    day = datetime.date.fromordinal(ordinal)
+    t0 = pd.Timestamp(datetime.datetime(day.year, day.month, day.day), tz='UTC')
+    viols, n, nopen = [], 0, 0
+    for hms in HOUR_TIMES:
+        t = pd.Timestamp(datetime.datetime(day.year, day.month, day.day, *hms), tz='UTC')
+        dh = bm.StubDataHandler()
+        b = SimulatedBroker(t0, SimulatedExchange(t0), dh, initial_funds=10000.0)
+        b.create_portfolio('p')
+        b.subscribe_funds_to_portfolio('p', 5000.0)
+        b.submit_order('p', Order(t0, 'A', 2, order_id='o1'))
+        b.submit_order('p', Order(t0, 'B', -3, order_id='o2'))
+        b.update(t)
+        fills = [h for h in b.portfolios['p'].history if h.type == 'asset_transaction']
+        want = 2 if bm.ref_is_open(t) else 0
+        n += 1
+        nopen += 1 if want else 0
+        pending = len(list(b.open_orders['p'].queue))
+        if len(fills) != want or pending != 2 - want:
+            viols.append({'clause': 'C04.exchange_hours', 'case': {'harness': 'hours', 'day': ordinal},
+                          'detail': {'instant': str(t), 'weekday': day.strftime('%a'), 'fills': len(fills),
+                                     'still_pending': pending, 'expected_fills': want}})
+    return {'viols': viols[:3], 'execs': n, 'evals': n, 'nontrivial': nopen > 0, 'outcome': (day.weekday(), day.month, nopen),
+            'counters': {'hour_grid_updates': n, 'hour_grid_open_instants': nopen}}
+
+
 def run(tier, res, is_known):
     depth = 5 if tier == 'quick' else 7
     res.rule = ('BFS over interleavings of submissions (2 portfolios x 2 assets x buy/sell) with clock updates '
@@ -31,11 +71,24 @@ def run(tier, res, is_known):
     ]
     spec = bm.BrokerSpec('C04', FEE, [INIT], alphabet)
     bfs(spec, depth, res, is_known, label='two funded portfolios')
+    if any(not is_known(v) for v in res.violations):
+        return
+    import datetime
+    from ..core import product
+    years = [2020] if tier == 'quick' else [2019, 2020, 2021, 2024]
+    days = [d for y in years for d in range(datetime.date(y, 1, 1).toordinal(), datetime.date(y, 12, 31).toordinal() + 1)]
+    product(hours_day, days, res, is_known, label='exchange hours x every day of %s' % years, chunk=16)
+    res.rule += ('; part 2: every day of %s x 13 boundary times: two pending orders and one clock update on a fresh real '
+                 'broker - filled iff Mon-Fri 14:30 <= t < 21:00 UTC' % years)
 
 
 def replay(case):
+    if case.get('harness') == 'hours':
+        return hours_day(case['day'])['viols']
     return bm.replay_broker(case, 'C04.')
 
 
 def minimise(case, clause):
+    if case.get('harness') == 'hours':
+        return case
     return bm.minimise_broker(case, clause, 'C04.')
